@@ -21,8 +21,13 @@
   The liveness hypotheses on the run so far: `NoDisconnect` (no `.disconnect` event) and `NoCancel`
   (no EFFECTIVE `.cancelCtx`: `ctxCancelled` is still false; a `.cancelCtx` after Connect has returned
   changes nothing, reconnclient.go:97-101, and is allowed). The friendly tail contains neither.
+  "All configurations" includes `deafDialer = true` (a Dialer that ignores its context, `NoContextDialer`):
+  every theorem below is stated and proved without a hypothesis on it. Under `NoCancel` the branches of the
+  model that exist for such a dialer are never taken; conservation covers them (a connection that is born
+  dead after a late dial success; see `deafDemo`, `deafLostDemo`). With `deafDialer = false` they are
+  unreachable altogether (`deafBranch_unreachable`, invariant `Aware`).
   Helper lemmas (and the definitions `Req.needsAck`, `entryReq`, `pendingReqs`, `friendly`,
-  `settled`, `isDisconnect`, `isCancel`) live in `MqttVerif/Proofs/RetryLive.lean`.
+  `settled`, `isDisconnect`, `isCancel`, `Aware`, `deafBranch`) live in `MqttVerif/Proofs/RetryLive.lean`.
 -/
 import MqttVerif.Proofs.RetryLive
 
@@ -271,7 +276,8 @@ example (r : Req) (hr : r.needsAck = true) (hq : Req.validQoS r) :
 
 /-- the hypothesis `NoCancel` is necessary for liveness: the context given to Connect is cancelled while
     the loop is inside the first DialContext — the loop exits, Connect returns the context's error, the
-    queued request is never transmitted (conserved in `taskQ`) -/
+    queued request is never transmitted (conserved in `taskQ`). (Default configuration: the dialer looks at
+    its context; for one that does not see `deafDemo` / `deafLostDemo` below.) -/
 def cancelDemo : Script :=
   { evs := [.start, .app (.pub 0 1), .cancelCtx] }
 
@@ -297,6 +303,116 @@ example :
     (let w := exec { evs := [.cancelCtx, .app (.pub 0 1), .start] ++ friendly 5 9 }
      w.phase = .exited ∧ w.connectErr = true ∧ w.dials = 1 ∧ w.broker.acked = [] ∧
      pendingReqs w = [.pub 0 1]) := by decide
+
+/-! ### a dialer that ignores its context (`Cfg.deafDialer`, e.g. `NoContextDialer`)
+
+  Conservation (`conservation_any`) and the liveness theorems are stated for ALL configurations, so they
+  cover this one. Under `NoCancel` the branches of the model that are specific to such a dialer are never
+  taken; without `NoCancel` the runs below show what they do. -/
+
+/-- with a dialer that looks at its context (the default) the invariant `Aware` holds in every reachable
+    world: once the context is cancelled the loop is not running, and Connect never returns a session -/
+theorem aware_exec (s : Script) (hd : s.cfg.deafDialer = false) : Aware (exec s) :=
+  aware_foldl s.evs (init s) hd (aware_init s)
+
+/-- … so the two branches of `step` that exist for the deaf dialer (guard `deafBranch`: inside DialContext,
+    context cancelled, Connect has not returned a session) are unreachable: on every reachable world the
+    step function is the one from before `deafDialer` was introduced (`dialOk_aware`, `dialFail_aware`;
+    `.start` and `.cancelCtx` test `cfg.deafDialer` directly, and `cfg` never changes: `cfg_foldl`) -/
+theorem deafBranch_unreachable (s : Script) (hd : s.cfg.deafDialer = false) : ¬ deafBranch (exec s) :=
+  (aware_exec s hd).noDeafBranch
+
+/-- without the cancellation the run satisfies `NoCancel`, whatever the dialer: the guard is false too -/
+theorem deafBranch_needs_cancel (s : Script) (nc : NoCancel s) : ¬ deafBranch (exec s) := by
+  intro ⟨_, hc, _⟩
+  unfold NoCancel at nc
+  rw [nc] at hc
+  exact absurd hc (by decide)
+
+/-- the context given to Connect is cancelled during the first dial; the dialer does not notice -/
+def deafDemo : Script :=
+  { cfg := { deafDialer := true }
+    evs := [.start, .cancelCtx] }
+
+/-- Connect returns the context's error at once, but the loop stays inside DialContext (with a context-aware
+    dialer it has left: `cancelDemo`) -/
+example :
+    (exec deafDemo).phase = .dialGate ∧ (exec deafDemo).connectErr = true ∧
+    (exec deafDemo).ctxCancelled = true ∧ (exec deafDemo).dials = 1 ∧ (exec deafDemo).conns.length = 0 ∧
+    (exec { deafDemo with cfg := {} }).phase = .exited ∧ ¬ NoCancel deafDemo := by decide
+
+/-- the guard of the deaf-dialer branches IS reachable with such a dialer (`deafBranch_unreachable` needs its
+    hypothesis) -/
+example : deafBranch (exec deafDemo) := by unfold deafBranch; decide
+
+/-- … the dial then SUCCEEDS (`.dialOk`): one connection that carries CONNECT and nothing else and is dead
+    (closed by the loop), the loop has exited without backing off, no CONNACK gate; later friendly rounds
+    change nothing -/
+example :
+    let w := exec { deafDemo with evs := deafDemo.evs ++ [.dialOk 1] }
+    w.phase = .exited ∧ w.connectErr = true ∧ w.connectReturned = none ∧ w.conns.length = 1 ∧ w.cli = some 0 ∧
+    (getConn w 0).pkts = [(.connect, .sent .ok)] ∧ (getConn w 0).alive = false ∧
+    (getConn w 0).connected = false ∧ w.connReady = true ∧ w.goroutine = true ∧
+    w.dials = 1 ∧ w.waits = [] ∧ w.stopped = false := by decide
+
+example :
+    let w := exec { deafDemo with evs := deafDemo.evs ++ [.dialOk 1] ++ friendly 5 9 }
+    w.phase = .exited ∧ w.conns.length = 1 ∧ w.dials = 1 ∧ (getConn w 0).pkts = [(.connect, .sent .ok)] := by
+  decide
+
+/-- … or the dial FAILS (`.dialFail`): the loop exits through its select on `ctx.Done()`, no connection, no
+    back-off (a failed dial with a live context backs off: `waits = [0]`) -/
+example :
+    (let w := exec { deafDemo with evs := deafDemo.evs ++ [.dialFail] }
+     w.phase = .exited ∧ w.connectErr = true ∧ w.conns.length = 0 ∧ w.cli = none ∧ w.waits = [] ∧
+     w.dials = 1 ∧ w.goroutine = false) ∧
+    (let w := exec { deafDemo with evs := deafDemo.evs ++ [.dialFail] ++ friendly 5 9 }
+     w.phase = .exited ∧ w.conns.length = 0 ∧ w.dials = 1) ∧
+    (let w := exec { deafDemo with evs := [.start, .dialFail] }
+     w.phase = .backoff ∧ w.waits = [0]) := by decide
+
+/-- the same when the context is already done before Connect is called: `.start` dials all the same -/
+example :
+    (let w := exec { deafDemo with evs := [.cancelCtx, .start] }
+     w.phase = .dialGate ∧ w.connectErr = true ∧ w.dials = 1) ∧
+    (let w := exec { deafDemo with evs := [.cancelCtx, .start, .dialOk 1] }
+     w.phase = .exited ∧ w.conns.length = 1 ∧ (getConn w 0).pkts = [(.connect, .sent .ok)] ∧
+     (getConn w 0).alive = false) ∧
+    (let w := exec { deafDemo with evs := [.cancelCtx, .start, .dialFail] }
+     w.phase = .exited ∧ w.conns.length = 0 ∧ w.waits = []) := by decide
+
+/-- `NoCancel` is necessary for liveness with such a dialer too, and conservation holds: a request queued
+    before the cancellation is attempted by the task goroutine on the dead connection (the write fails at
+    once: `.dead`), lands in the retry queue and stays there — accepted, never acknowledged, still held -/
+def deafLostDemo : Script :=
+  { cfg := { deafDialer := true }
+    evs := [.start, .app (.pub 0 1), .cancelCtx, .dialOk 1] }
+
+example :
+    NoDisconnect deafLostDemo ∧ ¬ NoCancel deafLostDemo ∧
+    (let w := exec { deafLostDemo with evs := deafLostDemo.evs ++ friendly 5 9 }
+     w.phase = .exited ∧ w.connectErr = true ∧ w.stuck = false ∧ w.conns.length = 1 ∧
+     (getConn w 0).pkts = [(.connect, .sent .ok), (.publish 0 1 2 false, .dead)] ∧
+     w.accepted = [.pub 0 1] ∧ w.broker.acked = [] ∧ w.taskQ = [] ∧ w.retryQ = [.rePublish 0 1] ∧
+     pendingReqs w = [.pub 0 1]) := by
+  refine ⟨?_, by decide, by decide⟩
+  intro e he
+  simp only [deafLostDemo, List.mem_cons, List.not_mem_nil, or_false] at he
+  rcases he with rfl | rfl | rfl | rfl <;> rfl
+
+example (r : Req) (hr : r.needsAck = true) (hq : Req.validQoS r) :
+    (exec deafLostDemo).accepted.count r ≤
+      (exec deafLostDemo).broker.acked.count r + (pendingReqs (exec deafLostDemo)).count r :=
+  conservation_any deafLostDemo (by decide) r hr hq
+
+/-- a cancellation AFTER Connect has returned is a no-op with such a dialer as well (`cancel_ineffective`
+    holds for all configurations): the liveness theorems apply to the run -/
+example :
+    let s : Script := { cfg := { deafDialer := true }, evs := [.start, .dialOk 1, .connackOk true [], .cancelCtx,
+                                                                 .app (.pub 0 1), .peerClose] }
+    NoCancel s ∧ (exec s).phase = .backoff ∧
+    (exec { s with evs := s.evs ++ friendly ((exec s).faults.length + 2) 9 }).broker.acked = [.pub 0 1] := by
+  decide
 
 /-- the added hypothesis `validQoS` is necessary: the model's QoS is a `Nat`, and it neither
     awaits nor logs an acknowledgement for a "QoS 3" publish -/
